@@ -1,7 +1,7 @@
 (* Props/C06.v — At-most-once execution of an entry (replay protection).
    Only statements, each closed by [exact]; proofs live in Lemmas/. *)
 From Model Require Import Examples.
-From Lemmas Require Import ChainLemmas HoldingLemmas StatusLemmas.
+From Lemmas Require Import ChainLemmas HoldingLemmas StatusLemmas HistoryLemmas HistoryLemmas2 HistoryLemmas3.
 Open Scope Z_scope.
 
 (* Execution writes a relation row for the entry hash and relation rows are never deleted: once
@@ -40,6 +40,27 @@ Theorem C06_executed_held_batch_is_skipped : forall c cur rates avgs s e hh txs,
   (exists t, entry_valid_at c e cur = Some t) -> is_replay s (e_hash e) = true ->
   apply_held c cur rates avgs s e hh = Ok (s, false).
 Proof. exact replayed_held_inert. Qed.
+
+(* Executing a (non-empty) batch always leaves relation rows: from then on the entry hash counts as a replay
+   (and stays one: C06_executed_stays_executed), so no later copy of it and no later visit of the holding
+   table can execute it again. *)
+Theorem C06_execution_marks_the_hash : forall c h hs rates avgs t txs idx s s',
+  record_txs c h hs rates avgs idx (t :: txs) s = Ok s' -> is_replay s' hs = true.
+Proof. exact record_txs_replayed. Qed.
+Print Assumptions C06_execution_marks_the_hash.
+
+(* At most once, for every chain: after ANY chain (no conversions into PEG, distinct batch hashes) every balance
+   cell is the sum over the history rows of the EXECUTED entries, each row counted once -- an entry that had
+   moved the ledger twice would break the equation.  (The invariant carried through the proof contains the
+   at-most-once step explicitly: a held batch whose status counts as executed has relation rows, so the replay
+   check stops it: Lemmas/HistoryLemmas3.v G_apply_held.) *)
+Theorem C06_every_entry_counts_once : forall c bs s m,
+  forallb block_okb bs = true ->
+  replay c genesis empty_cache bs = Done (s, m) ->
+  NoDup (map hb_hash (hist s)) ->
+  forall a t, special_addr a = false -> get_bal (bal s) a t = hist_sum c s a t.
+Proof. exact replay_accounts. Qed.
+Print Assumptions C06_every_entry_counts_once.
 
 Example C06_example :
   exists s m, replay ex_cfg genesis empty_cache ex_chain = Done (s, m) /\
